@@ -329,7 +329,8 @@ CallCheck(fn, ins) ==
                 ELSE IF p <= need THEN CallArgCheck(P.args[p - 2 - nr], ins.ops[p])
                 ELSE CallTailCheck(ins.ops[p])
   IN IF n < 2 THEN V({"CallArity"})
-     ELSE IF ~(ins.ops[1].k = "ref" /\ ins.ops[1].t = "proto") THEN V({"CallProto"})  \* "The first operand is a prototype reference operand"
+     ELSE IF ~(ins.ops[1].k = "ref" /\ ins.ops[1].t = "proto")       \* "The first operand is a prototype reference operand"
+          THEN V({"CallProto"} \cup (BaseV(ins.ops[1], FALSE, FALSE) \cap {"Undeclared"}))
      ELSE IF n < need \/ (n # need /\ ~P.va) THEN V({"CallArity"})
      ELSE Join(JoinAll([p \in 1..n |-> pos(p)], n),
                U(IF ins.op = "jcall" /\ need # 2 THEN {"JcallWithSignature"} ELSE {}))   \* "for functions without args and return values"
@@ -362,13 +363,15 @@ WellFormed(fn, insns) == Verdict(fn, insns).exp = "ok"
 (* MIR_new_func_reg: "The only permitted integer type for the variable is   *)
 (* MIR_T_I64 (or MIR_T_U64???)"; "A variable should have an unique name in  *)
 (* the function"; "Names in form t<number> can not be used".                *)
-RegNames == {"x", "y", "a1", "t1", "t27", "t", "tx", "hr1", "hr", ".lc1"}
+RegNames == {"x", "y", "t1", "t27", "t", "tx", "t1x", "hr1", "hr", "hrx", ".lc1"}
+(* mir.c (a source comment, not MIR.md) reserves hr<digits> and the .lc prefix *)
+UndocReserved == {"hr1", "hr", ".lc1"}
 RegDeclCheck(declared, name, t) ==
   [v |-> (IF t \notin {"i64", "u64", "f", "d", "ld"} THEN {"RegType"} ELSE {})
          \cup (IF name \in {"t1", "t27"} THEN {"RegReserved"} ELSE {})
          \cup (IF name \in declared THEN {"RegRepeated"} ELSE {}),
    u |-> (IF t = "u64" THEN {"U64Reg"} ELSE {})
-         \cup (IF name \in {"hr1", ".lc1"} THEN {"UndocumentedReservedName"} ELSE {})]
+         \cup (IF name \in UndocReserved THEN {"UndocumentedReservedName"} ELSE {})]
 (* MIR_new_func: "Argument variables can be any type"; result types are data *)
 (* types other than block ones ("can be used only for argument of function") *)
 FuncDeclCheck(res, args, va) ==
@@ -377,7 +380,7 @@ FuncDeclCheck(res, args, va) ==
          \cup (IF \E i \in 1..Len(args) : args[i].n \in {"t1", "t27"} THEN {"RegReserved"} ELSE {}),
    u |-> (IF va /\ args = <<>> THEN {"VarargWithoutFixedArg"} ELSE {})
          \cup (IF \E i \in 1..Len(args) : args[i].t = "undef" THEN {"UndefArgType"} ELSE {})
-         \cup (IF \E i \in 1..Len(args) : args[i].n \in {"hr1", ".lc1"} THEN {"UndocumentedReservedName"} ELSE {})]
+         \cup (IF \E i \in 1..Len(args) : args[i].n \in UndocReserved THEN {"UndocumentedReservedName"} ELSE {})]
 MkVerdict(c) ==
   IF c.v # {} THEN [exp |-> "err", rules |-> c.v, unspec |-> c.u,
                     codes |-> UNION2({RuleCodes(r) : r \in c.v}), anycode |-> c.u # {}]
@@ -407,22 +410,27 @@ CallKinds(desc) == Kinds(desc) \cup {Opnd("m_blk0_s8", "mem", "blk0", "i", "none
                                      Opnd("m_rblk_s8", "mem", "rblk", "i", "none", 8)}
 
 (* not executed by the binding: control transfer, calls, va_list users,    *)
-(* stack restore, alloca of an address-sized amount                        *)
+(* stack restore, alloca of an amount that is not a small constant         *)
 NoExecOps == {"jmp", "bt", "bts", "bf", "bfs", "jmpi", "switch", "jret", "bend", "prbeq", "prbne"}
              \cup OvfBrOps \cup IntCmpBrOps \cup FpCmpBr("f") \cup FpCmpBr("d") \cup FpCmpBr("ld")
              \cup VaOps \cup CallOps \cup InternalOps
 Exec(insns) == \A i \in 1..Len(insns) :
                  /\ insns[i].op \notin NoExecOps
-                 /\ ~(insns[i].op = "alloca" /\ Len(insns[i].ops) = 2 /\ insns[i].ops[2].k \in {"ref", "str"})
+                 /\ ~(insns[i].op = "alloca" /\ Len(insns[i].ops) = 2 /\ insns[i].ops[2].k \notin {"reg", "int", "uint"})
 
 RowProtos(insns) == LET ps == {insns[i].proto : i \in 1..Len(insns)} \ {"-"}
                     IN IF ps = {} THEN "pA" ELSE CHOOSE p \in ps : TRUE
-MkRow(grp, key, fn, insns) ==
+(* fkey: stem of the finding key of a row; operand kinds that differ only in a parameter the rules do not look at *)
+(* (which item a reference names, which block case / size a block memory has) share a stem                       *)
+KClass(o) == IF o.k = "ref" THEN "ref" ELSE IF o.k = "mem" /\ TClass(o.t) = "blk" THEN "m_blk" ELSE o.kind
+MkRowF(grp, key, fkey, fn, insns) ==
   LET vd == Verdict(fn, insns)
       pn == RowProtos(insns)
-  IN [grp |-> grp, key |-> key, fn |-> fn, proto |-> Protos[pn], insns |-> insns,
+  IN [grp |-> grp, key |-> key, fkey |-> fkey, fn |-> fn, proto |-> Protos[pn], insns |-> insns,
       exp |-> vd.exp, rules |-> vd.rules, unspec |-> vd.unspec, codes |-> vd.codes, anycode |-> vd.anycode,
       exec |-> Exec(insns)]
+
+MkRow(grp, key, fn, insns) == MkRowF(grp, key, key, fn, insns)
 
 ToS(n) == ToString(n)
 FnFor(op) == IF op \in VaOps THEN FnVa ELSE Fn0
@@ -432,13 +440,13 @@ PreFor(op) == IF op \in OvfBrOps THEN <<AddO>> ELSE <<>>
 (* --- group kind: every fixed-arity opcode x position x operand kind, plus switch *)
 SwitchDesc(p) == IF p = 1 THEN I("i") ELSE I("label")
 SwitchRows ==
-  {MkRow("kind", "switch:" \o ToS(p) \o ":" \o k.kind, Fn0,
-         <<Insn("switch", [[q \in 1..3 |-> Dflt(SwitchDesc(q))] EXCEPT ![p] = k])>>)
+  {MkRowF("kind", "switch:" \o ToS(p) \o ":" \o k.kind, "switch:" \o ToS(p) \o ":" \o KClass(k), Fn0,
+          <<Insn("switch", [[q \in 1..3 |-> Dflt(SwitchDesc(q))] EXCEPT ![p] = k])>>)
      : p \in 1..3, k \in Kinds(SwitchDesc(1))}
 KindCasesOf(op) == UNION {
   LET m == OpModes[op]
-  IN {MkRow("kind", op \o ":" \o ToS(p) \o ":" \o k.kind, FnFor(op),
-            PreFor(op) \o <<Insn(op, [DfltOps(m) EXCEPT ![p] = k])>>) : k \in Kinds(m[p])}
+  IN {MkRowF("kind", op \o ":" \o ToS(p) \o ":" \o k.kind, op \o ":" \o ToS(p) \o ":" \o KClass(k), FnFor(op),
+             PreFor(op) \o <<Insn(op, [DfltOps(m) EXCEPT ![p] = k])>>) : k \in Kinds(m[p])}
   : p \in 1..Len(OpModes[op])}
 
 (* --- group arity: -1 / +1 / 0 operands for every opcode *)
@@ -457,7 +465,9 @@ RetOpLists == {<<>>} \cup {<<a>> : a \in RetKinds} \cup {<<a, b>> : a \in RetKin
 SeqKey(s) == IF Len(s) = 0 THEN "-" ELSE IF Len(s) = 1 THEN s[1].kind
              ELSE IF Len(s) = 2 THEN s[1].kind \o "," \o s[2].kind ELSE s[1].kind \o "," \o s[2].kind \o "," \o s[3].kind
 TSeqKey(s) == IF Len(s) = 0 THEN "-" ELSE IF Len(s) = 1 THEN s[1] ELSE s[1] \o "," \o s[2]
-RetRows == {MkRow("ret", "ret:" \o TSeqKey(r) \o ":" \o SeqKey(o), Fn(r, FALSE), <<Insn("ret", o)>>) : r \in RetResLists, o \in RetOpLists}
+RetRows == {MkRowF("ret", "ret:" \o TSeqKey(r) \o ":" \o SeqKey(o),
+                   IF Len(r) # Len(o) THEN "ret:operand_count" ELSE "ret:" \o TSeqKey(r) \o ":" \o SeqKey(o),
+                   Fn(r, FALSE), <<Insn("ret", o)>>) : r \in RetResLists, o \in RetOpLists}
 
 (* --- group call: prototypes x positions x kinds, arity, vararg tail *)
 CallDfltArg(a) == IF a.t \in AllBlkTypes THEN MemSz(a.t, a.sz) ELSE Dflt(I(TClass(a.t)))
@@ -477,8 +487,8 @@ CallSweepPositions(pn) ==
   IN ({1} \cup (IF pn = "pA" THEN {2} ELSE {}) \cup 3..need) \cup (IF P.va THEN {need + 1} ELSE {})
 CallRowsOf(op, pn) ==
   LET d == CallDfltOps(pn)
-  IN UNION {{MkRow("call", op \o ":" \o pn \o ":" \o ToS(p) \o ":" \o k.kind, Fn0,
-                   <<CallInsn(op, pn, IF p <= Len(d) THEN [d EXCEPT ![p] = k] ELSE d \o <<k>>)>>)
+  IN UNION {{MkRowF("call", op \o ":" \o pn \o ":" \o ToS(p) \o ":" \o k.kind, op \o ":" \o pn \o ":" \o ToS(p) \o ":" \o KClass(k), Fn0,
+                    <<CallInsn(op, pn, IF p <= Len(d) THEN [d EXCEPT ![p] = k] ELSE d \o <<k>>)>>)
               : k \in CallKinds(CallPosDesc(pn, p))} : p \in CallSweepPositions(pn)}
 CallArityRowsOf(op, pn) ==
   LET d == CallDfltOps(pn)
@@ -526,7 +536,7 @@ FuncDeclCases ==
      @@ MkVerdict(FuncDeclCheck(<<>>, <<Arg("a", t)>>, FALSE)) : t \in MemTypes}
   \cup {[grp |-> "decl", key |-> "func:res:" \o t, what |-> "func", res |-> <<t>>, args |-> <<>>, va |-> FALSE]
           @@ MkVerdict(FuncDeclCheck(<<t>>, <<>>, FALSE)) : t \in MemTypes}
-  \cup {[grp |-> "decl", key |-> "func:args:" \o n1 \o "," \o n2, what |-> "func", res |-> <<>>, args |-> <<Arg(n1, "i64"), Arg(n2, "f")>>, va |-> va]
+  \cup {[grp |-> "decl", key |-> "func:args:" \o n1 \o "," \o n2 \o (IF va THEN ",..." ELSE ""), fkey |-> "func:argname:" \o n1, what |-> "func", res |-> <<>>, args |-> <<Arg(n1, "i64"), Arg(n2, "f")>>, va |-> va]
           @@ MkVerdict(FuncDeclCheck(<<>>, <<Arg(n1, "i64"), Arg(n2, "f")>>, va)) : n1 \in {"a", "b", "t1", "hr1"}, n2 \in {"a", "b"}, va \in BOOLEAN}
   \cup {[grp |-> "decl", key |-> "func:vararg:noargs", what |-> "func", res |-> <<>>, args |-> <<>>, va |-> TRUE]
           @@ MkVerdict(FuncDeclCheck(<<>>, <<>>, TRUE))}
@@ -553,6 +563,7 @@ Cases ==
     [] GRP = "call" -> CallCases
     [] GRP = "ctx" -> CtxCases
     [] GRP = "decl" -> DeclCases
+    [] GRP = "meta" -> {[grp |-> "meta", documented |-> UserOps, internal |-> InternalOps]}
 
 Init == row \in Cases /\ EmitJ(row)
 Next == UNCHANGED row
